@@ -23,6 +23,11 @@ for _k, _v in _C12.CALLEES.items():
 C12_CALLEES = dict(_C12.CALLEES)
 
 
+# the plumbing this property's claim runs through (contracts/chain.py): listed here too, so that a change inside it is caught by THIS check
+from . import chain as CH   # noqa: E402
+CH.extend(CONTRACTS, CH.wrapper() + CH.tables(pack=True, unpack=False))
+
+
 def EXTRA():
     from jvc import effects
     # call-history independence of the Python plumbing: no module-level cache or other state is written by these modules
